@@ -40,7 +40,8 @@ def describe(tier):
                 f"the {len(TOKENS)}-token alphabet {TOKENS} up to length {b['tok_len']}; (c) every well-formed expression with (atoms, bracket pairs) in {b['edit_nq']} "
                 f" (also wrapped as 'Muss e', 'X e', 'Muss e Kann') with each atom replaced by each of {len(NEAR_ATOMS)} near-miss "
                 "atoms and every edit-distance-1 neighbour on the lexical-token level (delete / duplicate / substitute / insert); (d) a fixed list "
-                "of type-confusing strings. Each string goes through all four entry points; oracle: condition parser accepts <=> reference "
+                "of type-confusing strings; (e) every indicator spelling at edit distance <= 1 of the documented ones (alone, followed by "
+                "condition expressions, as second part, as bare final mark). Each string goes through all four entry points; oracle: condition parser accepts <=> reference "
                 "recogniser R2 accepts, else exactly SyntaxError; AHB parser: tree (lossless split) or SyntaxError; resolver: tree without raw "
                 "CONDITION_EXPRESSION token or SyntaxError, MUST accept L_cond + strict AHB forms, MUST reject everything outside L_cond + lenient "
                 "AHB forms (I2); is_valid_expression returns (False, message) for every must-reject string. Non-trivial = the string contains at "
@@ -52,9 +53,29 @@ def describe(tier):
     }
 
 
+INDICATOR_LETTERS = "musolkanxMSK"
+
+
+def _indicator_edits():
+    """every spelling at edit distance <= 1 (substitute / delete / insert one letter of a small alphabet) of the modal mark words
+    and of the one-letter indicators, e.g. 'Mann', 'Koll', 'Mus', 'Musss' - the reference decides which are legal"""
+    out = set()
+    for w in ("Muss", "Soll", "Kann", "muss", "KANN", "M", "s", "K", "X", "o", "u"):
+        out.add(w)
+        for i in range(len(w) + 1):
+            for c in INDICATOR_LETTERS:
+                out.add(w[:i] + c + w[i:])
+                if i < len(w):
+                    out.add(w[:i] + c + w[i + 1:])
+            if i < len(w):
+                out.add(w[:i] + w[i + 1:])
+    return sorted(out)
+
+
 def plan(tier, seed):
     b = BOUNDS[tier]
-    items = [{"fam": "special"}]
+    items = [{"fam": "special"}, {"fam": "indicators", "part": 0}, {"fam": "indicators", "part": 1}, {"fam": "indicators", "part": 2},
+             {"fam": "indicators", "part": 3}]
     for L in range(1, b["char_len"] + 1):
         if L <= 2:
             items.append({"fam": "chars", "len": L, "pre": []})
@@ -205,6 +226,12 @@ def run_item(item):
     if fam == "special":
         for s in SPECIAL:
             _do(r, s, fam)
+    elif fam == "indicators":
+        for i, w in enumerate(_indicator_edits()):
+            if i % 4 != item["part"]:
+                continue
+            for s in (w, w + "[1]", w + " [1] U [2]", "Muss [1] " + w + " [2]", "Muss[1]" + w, w + " [1] Kann", w + "{1}"):
+                _do(r, s, fam)
     elif fam in ("chars", "toks"):
         alpha = CHARS if fam == "chars" else TOKENS
         pre = "".join(alpha[i] for i in item["pre"])
